@@ -57,6 +57,32 @@ func mutate(current interface{}, mutator ovsdb.Mutator, value interface{}) (inte
 	return current, value
 }
 
+// copyValue returns a copy of a native slice or map value. The new value of a
+// column and its difference are stored and later modified independently, so
+// they must not share memory. Any other value is immutable and returned as is.
+func copyValue(v interface{}) interface{} {
+	rv := reflect.ValueOf(v)
+	switch rv.Kind() {
+	case reflect.Slice:
+		if rv.IsNil() {
+			return v
+		}
+		c := reflect.MakeSlice(rv.Type(), rv.Len(), rv.Len())
+		reflect.Copy(c, rv)
+		return c.Interface()
+	case reflect.Map:
+		if rv.IsNil() {
+			return v
+		}
+		c := reflect.MakeMapWithSize(rv.Type(), rv.Len())
+		for iter := rv.MapRange(); iter.Next(); {
+			c.SetMapIndex(iter.Key(), iter.Value())
+		}
+		return c.Interface()
+	}
+	return v
+}
+
 func mutateInsert(current, value interface{}) (interface{}, interface{}) {
 	switch current.(type) {
 	case int, float64:
@@ -74,7 +100,7 @@ func mutateInsert(current, value interface{}) (interface{}, interface{}) {
 	}
 	if !vc.IsValid() {
 		if vv.IsValid() {
-			return vv.Interface(), vv.Interface()
+			return vv.Interface(), copyValue(vv.Interface())
 		}
 		return nil, nil
 	}
@@ -95,7 +121,7 @@ func mutateInsert(current, value interface{}) (interface{}, interface{}) {
 	}
 	if vc.Kind() == reflect.Map && vv.Kind() == reflect.Map {
 		if vc.IsNil() && vv.Len() > 0 {
-			return value, value
+			return value, copyValue(value)
 		}
 		diff := reflect.MakeMap(vc.Type())
 		iter := vv.MapRange()
